@@ -65,9 +65,12 @@ class GroupAddressDPT:
             return
         if not isinstance(telegram.payload, GroupValueWrite | GroupValueResponse):
             return
-        assert isinstance(  # GroupValueWrite and GroupValueResponse can not have IndividualAddress
+        if not isinstance(
             telegram.destination_address, GroupAddress | InternalGroupAddress
-        )
+        ):
+            # GroupValueWrite and GroupValueResponse should not have an IndividualAddress;
+            # there is nothing to decode - don't raise in the telegram consumer task.
+            return
         if (transcoder := self.get(telegram.destination_address)) is None:
             return
         try:
